@@ -159,7 +159,15 @@ func (cs condSet) matches(res int, err error) (matched bool, errorsChecked bool)
 
 // isFailure is the statement's rule.
 func (cs condSet) isFailure(res int, err error) bool {
-	if len(cs) == 0 {
+	// "E0"/"T0" are registrations with an empty list (HandleErrors() / HandleErrorTypes() fed from an empty
+	// configuration): they configure no condition, so a policy that has only those is in the "no conditions" case
+	effective := 0
+	for _, c := range cs {
+		if c != "E0" && c != "T0" {
+			effective++
+		}
+	}
+	if effective == 0 {
 		return err != nil
 	}
 	m, checked := cs.matches(res, err)
@@ -194,6 +202,10 @@ func applyHandle[S any](b failureBuilder[S], cs condSet) {
 			b.HandleResult(7)
 		case "I":
 			b.HandleIf(c12Pred)
+		case "E0":
+			b.HandleErrors()
+		case "T0":
+			b.HandleErrorTypes()
 		case "Es":
 			// registered from a caller-owned slice that is reused afterwards: the conditions are fixed at registration
 			errs := []error{errE1, errE2}
@@ -256,14 +268,14 @@ func c12CondSets() []condSet {
 	}
 	perm(nil, base)
 	// duplicates and both type forms together
-	for _, d := range [][]string{{"R", "E", "R"}, {"E", "E"}, {"Tv", "Tp"}, {"Tp", "R", "Tv"}, {"I", "R", "I"}, {"R", "R"}, {"EE"}, {"EE2"}, {"TT"}, {"TT2"}, {"TT", "R"}, {"R", "EE2"}, {"TT2", "EE"}, {"I", "TT"}, {"Es"}, {"Es", "R"}, {"Tv", "Es"}} {
+	for _, d := range [][]string{{"R", "E", "R"}, {"E", "E"}, {"Tv", "Tp"}, {"Tp", "R", "Tv"}, {"I", "R", "I"}, {"R", "R"}, {"EE"}, {"EE2"}, {"TT"}, {"TT2"}, {"TT", "R"}, {"R", "EE2"}, {"TT2", "EE"}, {"I", "TT"}, {"Es"}, {"Es", "R"}, {"Tv", "Es"}, {"E0"}, {"T0"}, {"E0", "T0"}} {
 		add(d)
 	}
 	return sets
 }
 
 func checkC12(rep *vk.Report) {
-	rep.Rule = "exhaustive grid: every subset and order of HandleErrors(E1)/HandleErrorTypes(sample in all four forms)/HandleResult(7)/HandleIf(pred) (plus duplicates) x 72 outcomes (results 0,7,9,5 x nil, sentinels, wrapped, doubly wrapped, joined, multi-%w, value- and pointer-receiver typed, wrapped/joined typed, custom Is) x {fallback applied?, retry re-invoked?, breaker failure count through an execution and through RecordResult/RecordError}; the same for AbortOn*/CancelOn* subsets. Plus result types other than int (pointer, struct holding pointers, slice, map, interface holding a pointer): HandleResult/AbortOnResult must match separately allocated deep-equal values. Plus random error trees (wrap/join/multi-%w to depth 4) x random condition lists (5 000 quick, 1 000 000 thorough). Expected value from the statement's rule evaluated with errors.Is, an own type walk, DeepEqual for outcomes without error, and the predicate. Non-trivial: the outcome carries an error or a handled result and at least one condition is configured; distinct by (policy kind, condition list, outcome)."
+	rep.Rule = "exhaustive grid: every subset and order of HandleErrors(E1)/HandleErrorTypes(sample in all four forms)/HandleResult(7)/HandleIf(pred) (plus duplicates, and registrations with an empty list, which configure nothing) x 72 outcomes (results 0,7,9,5 x nil, sentinels, wrapped, doubly wrapped, joined, multi-%w, value- and pointer-receiver typed, wrapped/joined typed, custom Is) x {fallback applied?, retry re-invoked?, breaker failure count through an execution and through RecordResult/RecordError}; the same for AbortOn*/CancelOn* subsets. Plus result types other than int (pointer, struct holding pointers, slice, map, interface holding a pointer): HandleResult/AbortOnResult must match separately allocated deep-equal values. Plus random error trees (wrap/join/multi-%w to depth 4) x random condition lists (5 000 quick, 1 000 000 thorough). Expected value from the statement's rule evaluated with errors.Is, an own type walk, DeepEqual for outcomes without error, and the predicate. Non-trivial: the outcome carries an error or a handled result and at least one condition is configured; distinct by (policy kind, condition list, outcome)."
 	rep.Assumptions = []string{
 		"A6: AbortOnResult/CancelOnResult are not judged for outcomes that also carry an error",
 		"A10: typed errors are produced in canonical form (value-receiver types by value, pointer-receiver types by pointer); all four sample forms are registered",
@@ -418,6 +430,10 @@ func c12Abort(rep *vk.Report, idx int, cs condSet, o outcome) {
 			rpb.AbortOnResult(7)
 		case "I":
 			rpb.AbortIf(c12Pred)
+		case "E0":
+			rpb.AbortOnErrors()
+		case "T0":
+			rpb.AbortOnErrorTypes()
 		case "Es":
 			errs := []error{errE1, errE2}
 			rpb.AbortOnErrors(errs...)
@@ -455,6 +471,9 @@ func c12Hedge(rep *vk.Report, idx int, cs condSet, o outcome) {
 	hasR := false
 	for _, c := range cs {
 		hasR = hasR || c == "R"
+		if c == "E0" || c == "T0" {
+			return // whether an empty CancelOn* registration leaves "none configured" is not stated
+		}
 	}
 	if hasR && o.Err != nil {
 		rep.Count("A6_not_judged", 1)
